@@ -21,13 +21,20 @@ BOTH = frozenset((T, F))
 class Summary:  # pylint: disable=too-few-public-methods
     """Value-independent symbolic summary of one reference block."""
 
-    __slots__ = ("asserts", "exit", "cond", "abs_read")
+    __slots__ = ("asserts", "exit", "cond", "abs_read", "need", "out_len", "depth_known", "top")
 
     def __init__(self) -> None:
         self.asserts: List[Any] = []
         self.exit = "fall"  # fall | b | bz | bnz | return | err | callsub | retsub | multi | end
         self.cond: Any = None
         self.abs_read = False  # contains gtxn i f / int i; gtxns f
+        # stack discipline: the block consumes `need` values of the stack it is entered with and
+        # leaves `out_len` values in their place; `top` is the value on top afterwards (FREE when it
+        # is not produced in the block); depth_known is False after an instruction the table lacks
+        self.need = 0
+        self.out_len = 0
+        self.depth_known = True
+        self.top: Any = FREE
 
 
 def summarize(g: RefGraph) -> Dict[int, Summary]:  # pylint: disable=too-many-branches,too-many-statements
@@ -37,8 +44,14 @@ def summarize(g: RefGraph) -> Dict[int, Summary]:  # pylint: disable=too-many-br
         s = Summary()
         st: List[Any] = []
 
-        def pop() -> Any:
-            return st.pop() if st else FREE
+        def ensure(k: int, st: List[Any] = st, s: Summary = s) -> None:
+            while len(st) < k:
+                st.insert(0, FREE)
+                s.need += 1
+
+        def pop(st: List[Any] = st) -> Any:
+            ensure(1)
+            return st.pop()
 
         for i in ins:
             l = g.lines[i]
@@ -98,9 +111,23 @@ def summarize(g: RefGraph) -> Dict[int, Summary]:  # pylint: disable=too-many-br
                 pop()
                 pop()
                 st.append(FREE)
-            elif op in ("dig", "cover", "uncover"):
-                # outside the direct-check fragment: forget the stack
-                st = []
+            elif op in ("*", "/", "%"):
+                pop()
+                pop()
+                st.append(FREE)
+            elif op == "dig":
+                k = int(a[0])
+                ensure(k + 1)
+                st.append(st[-1 - k])
+            elif op == "cover":
+                k = int(a[0])
+                ensure(k + 1)
+                x = st.pop()
+                st.insert(len(st) - k, x)
+            elif op == "uncover":
+                k = int(a[0])
+                ensure(k + 1)
+                st.append(st.pop(len(st) - 1 - k))
             elif op in ("bz", "bnz"):
                 s.exit = op
                 s.cond = pop()
@@ -117,11 +144,16 @@ def summarize(g: RefGraph) -> Dict[int, Summary]:  # pylint: disable=too-many-br
                 s.exit = "retsub"
             elif op in ("switch", "match"):
                 s.exit = "multi"
+                for _ in range(1 if op == "switch" else len(a) + 1):
+                    pop()
             else:
-                st = []
+                s.depth_known = False
+                del st[:]
         if s.exit == "fall" and ins[-1] == n - 1:
             s.exit = "end"
-            s.cond = st[-1] if len(st) == 1 else FREE
+            s.cond = st[-1] if st else FREE
+        s.out_len = len(st)
+        s.top = st[-1] if st else FREE
         out[b] = s
     return out
 
@@ -250,6 +282,7 @@ class Solver:  # pylint: disable=too-many-instance-attributes
         # concrete accepting run ends that way) makes the lower reading exact; otherwise the end
         # "may accept" and the caller must not use the lower sets as a demand.
         self.end_accepts = end_accepts
+        self.depth_decided = False  # the lower reading rejected something on stack depth alone
         self.avoid: Set[int] = set()  # blocks no path may pass (used by the credit clause of C09)
         self.sm = summaries if summaries is not None else summarize(g)
         self.states = 0
@@ -266,56 +299,82 @@ class Solver:  # pylint: disable=too-many-instance-attributes
                 return False
         return True
 
-    def succ(self, b: int, stack: Tuple[Any, ...], v: Any, dim: Dimension) -> Tuple[List[Tuple[int, Tuple[Any, ...]]], bool]:
-        """(successor states, accepts_here)"""
+    DEPTH_CAP = 12
+
+    def succ(self, b: int, stack: Tuple[Any, ...], depth: Optional[int], v: Any, dim: Dimension) -> Tuple[List[Tuple[int, Tuple[Any, ...], Optional[int]]], bool]:
+        """(successor states, accepts_here).  A state is (block, call stack, data-stack depth at
+        block entry); depth None = not tracked (saturated, or after an instruction outside the table)."""
         g, s = self.g, self.sm[b]
         ex = s.exit
+        if depth is not None and depth < s.need:
+            if not CONST_FREE[0]:
+                self.depth_decided = True
+                return [], False  # the AVM fails: pop from an empty stack
+            depth = None  # upper reading: a tool need not model stack underflow
+        d2: Optional[int] = None
+        if depth is not None and s.depth_known:
+            d2 = depth - s.need + s.out_len
+            if d2 > self.DEPTH_CAP:
+                d2 = None
+
+        def end_ok(top: Any, plain: bool = False) -> bool:
+            # reaching the end of the program text approves iff exactly one non-zero value is left
+            if CONST_FREE[0]:
+                # upper reading: a value left there is neither asserted nor branched on, so it is free,
+                # and junk left on the stack puts the program outside the fragment; but every condition
+                # has been consumed when a final branch / call falls off the end with an EMPTY stack:
+                # that is a rejection no reading can turn into an approval
+                return plain or d2 != 0
+            if d2 is not None and d2 != 1:
+                self.depth_decided = True
+                return False
+            if self.end_accepts is False:
+                return False
+            if top is FREE:
+                return True
+            return T in truth(top, v, dim)
+
         if ex == "err":
             return [], False
         if ex == "return":
             return [], T in truth(s.cond, v, dim) if s.cond is not None else True
         if ex == "end":
-            # the value left on the stack at the end of the program text decides approval, but it is
-            # neither asserted nor branched on: the upper reading lets it go either way
-            if CONST_FREE[0]:
-                return [], True
-            if self.end_accepts is False:
-                return [], False
-            if s.cond is FREE:
-                return [], True
-            return [], T in truth(s.cond, v, dim)
+            return [], end_ok(s.cond, plain=True)
         if ex in ("bz", "bnz"):
             t = truth(s.cond, v, dim)
             last = g.blocks[b][-1]
             jump = g.label_at[g.lines[last].args[0]]
             fall = last + 1 if last + 1 < len(g.lines) else None
-            out: List[Tuple[int, Tuple[Any, ...]]] = []
+            out: List[Tuple[int, Tuple[Any, ...], Optional[int]]] = []
             acc = False
             take_jump = (F in t) if ex == "bz" else (T in t)
             take_fall = (T in t) if ex == "bz" else (F in t)
             if take_jump:
-                out.append((jump, stack))
+                out.append((jump, stack, d2))
             if take_fall:
                 if fall is None:
-                    acc = CONST_FREE[0] or self.end_accepts is not False  # falls off the end: may accept
-                elif (fall, stack) not in out:
-                    out.append((fall, stack))
+                    acc = end_ok(s.top)
+                elif (fall, stack, d2) not in out:
+                    out.append((fall, stack, d2))
             return out, acc
         if ex == "callsub":
             rp = g.return_point(b)
             if len(stack) >= 8:
                 return [], False
-            return [(g.callee_entry(b), stack + (rp,))], False
+            return [(g.callee_entry(b), stack + (rp,), d2)], False
         if ex == "retsub":
             if not stack:
                 return [], False
             rp = stack[-1]
             if rp is None:
-                return [], CONST_FREE[0] or self.end_accepts is not False  # returns to the end of the program: may accept
-            return [(rp, stack[:-1])], False
+                return [], end_ok(s.top)  # returns to the end of the program text
+            return [(rp, stack[:-1], d2)], False
         # b / multi / fall
-        outs = [(t2, stack) for t2 in g.bsucc[b]]
-        return outs, False
+        outs = [(t2, stack, d2) for t2 in g.bsucc[b]]
+        acc = False
+        if ex == "multi" and g.blocks[b][-1] + 1 >= len(g.lines):
+            acc = end_ok(s.top)  # switch/match as last instruction: no label taken
+        return outs, acc
 
     def solve(self, v: Any, dim: Dimension) -> Tuple[Set[int], bool]:
         """Context-sensitive: blocks on some accepting abstract path under v; and whether any
@@ -323,17 +382,17 @@ class Solver:  # pylint: disable=too-many-instance-attributes
         g = self.g
         if not g.lines:
             return set(), False
-        start = (0, ())
+        start = (0, (), 0)
         if not self.passable(0, v, dim):
             return set(), False
-        fwd: Dict[Tuple[int, Tuple[Any, ...]], List[Tuple[int, Tuple[Any, ...]]]] = {}
-        accepts: Set[Tuple[int, Tuple[Any, ...]]] = set()
+        fwd: Dict[Any, List[Any]] = {}
+        accepts: Set[Any] = set()
         work = [start]
         fwd[start] = []
         while work:
             st = work.pop()
             self.states += 1
-            nxt, acc = self.succ(st[0], st[1], v, dim)
+            nxt, acc = self.succ(st[0], st[1], st[2], v, dim)
             if acc:
                 accepts.add(st)
             for t in nxt:
@@ -357,7 +416,7 @@ class Solver:  # pylint: disable=too-many-instance-attributes
                 if p not in good:
                     good.add(p)
                     work2.append(p)
-        return {b for b, _ in good}, bool(accepts)
+        return {x[0] for x in good}, bool(accepts)
 
     def solve_ci(self, v: Any, dim: Dimension) -> Set[int]:
         """Context-insensitive variant: retsub may continue at any return point of any call
@@ -390,8 +449,8 @@ class Solver:  # pylint: disable=too-many-instance-attributes
                     else:
                         nxt.append(rp)
             else:
-                pairs, acc = self.succ(b, (), v, dim)
-                nxt = [t for t, _ in pairs]
+                pairs, acc = self.succ(b, (), None, v, dim)
+                nxt = [t[0] for t in pairs]
             if acc:
                 accepts.add(b)
             for t in nxt:
@@ -443,6 +502,8 @@ class Solver:  # pylint: disable=too-many-instance-attributes
     def const_conditions_matter(self, dim: Optional[Dimension] = None) -> bool:
         """Some condition is computed from constants alone and its literal value closes a way
         (zero anywhere, or any value at a two-way branch)."""
+        if self.g.lines and self.g.lines[-1].op not in ("return", "err", "b", "retsub"):
+            return True  # control can reach the end of the text: the value left there is free in the upper reading
         for b in self.g.retained_blocks:
             s = self.sm[b]
             conds = [(c, "assert") for c in s.asserts]
@@ -465,7 +526,7 @@ class Solver:  # pylint: disable=too-many-instance-attributes
     def bracket_sets(self, dim: Dimension) -> Tuple[Dict[int, Set[Any]], Dict[int, Set[Any]], Dict[int, Set[Any]], Dict[int, Set[Any]], bool]:
         """(lower exact, lower CI, upper exact, upper CI, some value accepts in the upper reading)."""
         ex, ci, acc = self.exact_sets(dim)
-        if not self.const_conditions_matter(dim):
+        if not self.const_conditions_matter(dim) and not self.depth_decided:
             return ex, ci, ex, ci, acc
         CONST_FREE[0] = True
         try:
